@@ -967,6 +967,10 @@ where
 
         let (topic_name, consumed) = MqttString::decode(&data_arc[cursor..])?;
         cursor += consumed;
+        // Same rule as the builder: no wildcards in a topic name
+        if topic_name.as_str().contains('#') || topic_name.as_str().contains('+') {
+            return Err(MqttError::MalformedPacket);
+        }
 
         let qos = match qos_value {
             0 => Qos::AtMostOnce,
